@@ -1,4 +1,5 @@
 import LopdfModel.Thm.StrictSave
+import LopdfModel.Thm.FileRevs
 /-
   C03 — `strict_ok` for saves with a cross-reference STREAM: the strict reader accepts the file,
   decodes the stream's rows (W = [1 4 2], the writer's Index), finds it listing itself, and recovers
@@ -177,7 +178,7 @@ theorem xrefObj_ok (d : SDoc) (out : Bytes) (d' : SDoc) (hk : d.xrefKind = .stre
     refine ⟨(WFD_iff d.trailer).mp t1.2 p hp, ?_, (NoRealD_iff d.trailer).mp t3 p hp⟩
     simp only [height] at t2
     exact (heightD_le_iff d.trailer (MAX_NESTING - 1)).mp (by omega) p hp
-  have hsv := streamTrailer_values_ok d hmax hg hclen hvals
+  have hsv := streamTrailer_values_ok [] d hmax hg hclen hvals
   obtain ⟨_, _, _, _, f5⟩ := streamTrailer_facts [] d hnd (.int 0)
   refine ⟨?_, ?_, (NoRealD_iff _).mpr (fun p hp => (hsv p hp).2.2), f5⟩
   · simp only [WFObj, WF]
@@ -187,69 +188,65 @@ theorem xrefObj_ok (d : SDoc) (out : Bytes) (d' : SDoc) (hk : d.xrefKind = .stre
     have : 2 ≤ MAX_NESTING := by decide
     omega
 
-/-- **R2 on a written cross-reference stream** -/
-theorem sectionAt_stream (d : SDoc) (out : Bytes) (d' : SDoc) (hk : d.xrefKind = .stream)
-    (h : saveFrom [] d = some (out, d')) (hlen : out.length < 4294967296) (hmax : d.maxId + 2 ≤ 4294967295)
+/-- **R2 on a written cross-reference stream**, appended to any prefix and read inside any
+extension of the file -/
+theorem sectionAt_streamP (pre : Bytes) (d : SDoc) (out : Bytes) (d' : SDoc) (R : Bytes) (hk : d.xrefKind = .stream)
+    (h : saveFrom pre d = some (out, d')) (hlen : out.length < 4294967296) (hmax : d.maxId + 2 ≤ 4294967295)
     (hg : GensOk d)
     (htr : WFObj (.dict d.trailer) ∧ height (.dict d.trailer) ≤ MAX_NESTING ∧ NoRealD d.trailer)
-    (hprev : d.trailer.get PREV = none) :
-    sectionAt out (bodyOf [] d).length
-      = .ok (Rev.mk (streamEntriesOf (xmapStream [] d) (d.maxId + 1)) (streamTrailer [] d)
-          ((bodyOf [] d).length + (writeIndirect (d.maxId + 1) 0 (xrefObj d)).length) none
+    (pv : Option Nat) (hprev : prevOf (streamTrailer pre d) = .ok pv) :
+    sectionAt (out ++ R) (bodyOf pre d).length
+      = .ok (Rev.mk (streamEntriesOf (xmapStream pre d) (d.maxId + 1)) (streamTrailer pre d)
+          ((bodyOf pre d).length + (writeIndirect (d.maxId + 1) 0 (xrefObjP pre d)).length) pv
           ((d.maxId + 1 + 1 : Nat) : Int) (some (d.maxId + 1))) := by
-  obtain ⟨hout, _⟩ := saveFrom_stream_eq [] d out d' hk h
-  have hokx := xrefObj_ok d out d' hk h hlen hmax hg htr
+  obtain ⟨hout, _⟩ := saveFrom_stream_eq pre d out d' hk h
+  have hokx := xrefObjP_ok pre d out d' hk h hlen hmax hg htr
   have hnd : d.trailer.keys.Nodup := by
     have := htr.1; simp only [WFObj, WF] at this; exact this.1
-  have hb := body_le_out [] d out d' h
-  have hbl : (bodyOf [] d).length < 4294967296 := by omega
-  obtain ⟨tail, htail⟩ : ∃ t, t = STARTXREF_KW ++ natDigits (bodyOf [] d).length ++ EOF_KW := ⟨_, rfl⟩
-  have e : out = bodyOf [] d ++ (writeIndirect (d.maxId + 1) 0 (xrefObj d) ++ tail) := by
-    rw [hout, htail]; simp only [xrefObj, List.append_assoc]
+  have hb := body_le_out pre d out d' h
+  have hbl : (bodyOf pre d).length < 4294967296 := by omega
+  obtain ⟨tail, htail⟩ : ∃ t, t = STARTXREF_KW ++ natDigits (bodyOf pre d).length ++ EOF_KW ++ R := ⟨_, rfl⟩
+  have e : out ++ R = bodyOf pre d ++ (writeIndirect (d.maxId + 1) 0 (xrefObjP pre d) ++ tail) := by
+    rw [hout, htail]; simp only [xrefObjP, List.append_assoc]
   -- the dictionary
-  obtain ⟨f1, f2, f3, f4, f5⟩ := streamTrailer_facts [] d hnd
-    (.int (xrefStreamContent (streamSecs (xmapStream [] d) (d.maxId + 1))).length)
+  obtain ⟨f1, f2, f3, f4, f5⟩ := streamTrailer_facts pre d hnd
+    (.int (xrefStreamContent (streamSecs (xmapStream pre d) (d.maxId + 1))).length)
   rw [Dict_set_same _ _ _ f5] at f1 f2 f3 f4
-  have hT : Dict.get (streamTrailer [] d) kType = some (.name XREF_NAME) := streamTrailer_get_type [] d hnd
-  have hF : (Dict.get (streamTrailer [] d) kFilter).isSome = false := f1
-  have hS : Dict.get (streamTrailer [] d) kSize = some (.int ((d.maxId + 1 + 1 : Nat) : Int)) := f2
-  have hI : Dict.get (streamTrailer [] d) kIndex
-      = some (xrefStreamIndex (streamSecs (xmapStream [] d) (d.maxId + 1))) := f3
-  have hW : intList (Dict.get (streamTrailer [] d) kW) = some [1, 4, 2] := by
+  have hT : Dict.get (streamTrailer pre d) kType = some (.name XREF_NAME) := streamTrailer_get_type pre d hnd
+  have hF : (Dict.get (streamTrailer pre d) kFilter).isSome = false := f1
+  have hS : Dict.get (streamTrailer pre d) kSize = some (.int ((d.maxId + 1 + 1 : Nat) : Int)) := f2
+  have hI : Dict.get (streamTrailer pre d) kIndex
+      = some (xrefStreamIndex (streamSecs (xmapStream pre d) (d.maxId + 1))) := f3
+  have hW : intList (Dict.get (streamTrailer pre d) kW) = some [1, 4, 2] := by
     have : kW = W_KEY := rfl
     rw [this, f4]
     simp [intList, XREF_W]
-  have hP : Dict.get (streamTrailer [] d) kPrev = none := by
-    have : kPrev = PREV := rfl
-    rw [this, streamTrailer_get_other [] d hnd PREV (by decide) (by decide) (by decide) (by decide) (by decide)
-      (by decide)]
-    exact hprev
   -- the object
-  have hobj := objectAt_written (bodyOf [] d) tail (d.maxId + 1) 0 (xrefObj d) (fun _ => none) hokx
+  have hobj := objectAt_written (bodyOf pre d) tail (d.maxId + 1) 0 (xrefObjP pre d) (fun _ => none) hokx
   rw [← e] at hobj
-  have hdrop : out.drop (bodyOf [] d).length
+  have hdrop : (out ++ R).drop (bodyOf pre d).length
       = natDigits (d.maxId + 1) ++ 32 :: (natDigits 0 ++ 32 :: (111 :: 98 :: 106 :: 10 ::
-          ((if needSeparator (xrefObj d) then [32] else []) ++ (writeObj (xrefObj d) ++ endObjTail (xrefObj d) tail)))) := by
+          ((if needSeparator (xrefObjP pre d) then [32] else []) ++ (writeObj (xrefObjP pre d) ++ endObjTail (xrefObjP pre d) tail)))) := by
     rw [e, List.drop_left, writeIndirect_eq]
   obtain ⟨a, as, hda, hdig⟩ := FileRT.natDigits_head (d.maxId + 1)
-  have hnx : stripPrefix XREF (out.drop (bodyOf [] d).length) = none := by
+  have hnx : stripPrefix XREF ((out ++ R).drop (bodyOf pre d).length) = none := by
     rw [hdrop, hda]
     have : ¬ (120 : UInt8) = a := fun e => (digit_not_ws a hdig).2.2 e.symm
     simp [XREF, stripPrefix, this]
-  have hle : ¬ (bodyOf [] d).length > out.length := by omega
+  have hle : ¬ (bodyOf pre d).length > (out ++ R).length := by simp only [List.length_append]; omega
   -- rows
-  have hsecs := streamSections_secs (streamSecs (xmapStream [] d) (d.maxId + 1)) []
-    (streamSecs_ok _ _ (xmapStream_ok [] d hg) (by omega)) (assigns_streamSecs_nodup _ _) (by intro k _; rfl)
+  have hsecs := streamSections_secs (streamSecs (xmapStream pre d) (d.maxId + 1)) []
+    (streamSecs_ok _ _ (xmapStream_ok pre d hg) (by omega)) (assigns_streamSecs_nodup _ _) (by intro k _; rfl)
   rw [← xrefStreamContent_eq] at hsecs
-  obtain ⟨ix1, ix2⟩ := index_shape (streamSecs (xmapStream [] d) (d.maxId + 1))
-  have hrows : rowCount (indexInts (streamSecs (xmapStream [] d) (d.maxId + 1))) * (1 + 4 + 2)
-      = ((xrefStreamContent (streamSecs (xmapStream [] d) (d.maxId + 1))).length : Int) := by
+  obtain ⟨ix1, ix2⟩ := index_shape (streamSecs (xmapStream pre d) (d.maxId + 1))
+  have hrows : rowCount (indexInts (streamSecs (xmapStream pre d) (d.maxId + 1))) * (1 + 4 + 2)
+      = ((xrefStreamContent (streamSecs (xmapStream pre d) (d.maxId + 1))).length : Int) := by
     rw [rowCount_index, xrefStreamContent_length]
     omega
-  have hself : (streamEntriesOf (xmapStream [] d) (d.maxId + 1)).any
-      (fun en => en.1 == d.maxId + 1 && en.2.1 == (bodyOf [] d).length) = true := by
+  have hself : (streamEntriesOf (xmapStream pre d) (d.maxId + 1)).any
+      (fun en => en.1 == d.maxId + 1 && en.2.1 == (bodyOf pre d).length) = true := by
     rw [List.any_eq_true]
-    refine ⟨(d.maxId + 1, (bodyOf [] d).length, 0), ?_, by simp⟩
+    refine ⟨(d.maxId + 1, (bodyOf pre d).length, 0), ?_, by simp⟩
     rw [mem_streamEntriesOf]
     refine ⟨by omega, ?_⟩
     simp [xmapStream, XrefMap.get_insert_same, Nat.mod_eq_of_lt hbl]
@@ -258,15 +255,15 @@ theorem sectionAt_stream (d : SDoc) (out : Bytes) (d' : SDoc) (hk : d.xrefKind =
   rw [hdrop, number_natDigits (d.maxId + 1) 32 _ (by omega) (by decide)]
   simp only
   rw [number_natDigits 0 32 _ (by omega) (by decide)]
-  simp only [hobj, xrefObj, hT, hF, hW, hS, hI, intList_index, hP, prevOf]
+  simp only [hobj, xrefObjP, hT, hF, hW, hS, hI, intList_index, hprev]
   have c1 : (!XREF_NAME == kXRef) = false := by decide
   have c2 : (decide ((1 : Int) < 0) || decide ((1 : Int) > 8) || decide ((4 : Int) < 0) || decide ((4 : Int) > 8)
       || decide ((2 : Int) < 0) || decide ((2 : Int) > 8)) = false := by decide
-  have c3 : ((indexInts (streamSecs (xmapStream [] d) (d.maxId + 1))).length % 2 != 0 ||
-      (indexInts (streamSecs (xmapStream [] d) (d.maxId + 1))).any fun x => decide (x < 0)) = false := by
+  have c3 : ((indexInts (streamSecs (xmapStream pre d) (d.maxId + 1))).length % 2 != 0 ||
+      (indexInts (streamSecs (xmapStream pre d) (d.maxId + 1))).any fun x => decide (x < 0)) = false := by
     rw [ix1, ix2]; rfl
-  have c4 : (rowCount (indexInts (streamSecs (xmapStream [] d) (d.maxId + 1))) * (1 + 4 + 2) !=
-      ((xrefStreamContent (streamSecs (xmapStream [] d) (d.maxId + 1))).length : Int)) = false := by
+  have c4 : (rowCount (indexInts (streamSecs (xmapStream pre d) (d.maxId + 1))) * (1 + 4 + 2) !=
+      ((xrefStreamContent (streamSecs (xmapStream pre d) (d.maxId + 1))).length : Int)) = false := by
     rw [hrows]; simp
   have t1 : Int.toNat 1 = 1 := rfl
   have t4 : Int.toNat 4 = 4 := rfl
@@ -276,15 +273,34 @@ theorem sectionAt_stream (d : SDoc) (out : Bytes) (d' : SDoc) (hk : d.xrefKind =
   unfold streamEntriesOf at hself'
   simp only [hself', if_true, streamEntriesOf]
 
+/-- **R2 on a written cross-reference stream** (plain save) -/
+theorem sectionAt_stream (d : SDoc) (out : Bytes) (d' : SDoc) (hk : d.xrefKind = .stream)
+    (h : saveFrom [] d = some (out, d')) (hlen : out.length < 4294967296) (hmax : d.maxId + 2 ≤ 4294967295)
+    (hg : GensOk d)
+    (htr : WFObj (.dict d.trailer) ∧ height (.dict d.trailer) ≤ MAX_NESTING ∧ NoRealD d.trailer)
+    (hprev : d.trailer.get PREV = none) :
+    sectionAt out (bodyOf [] d).length
+      = .ok (Rev.mk (streamEntriesOf (xmapStream [] d) (d.maxId + 1)) (streamTrailer [] d)
+          ((bodyOf [] d).length + (writeIndirect (d.maxId + 1) 0 (xrefObj d)).length) none
+          ((d.maxId + 1 + 1 : Nat) : Int) (some (d.maxId + 1))) := by
+  have hnd : d.trailer.keys.Nodup := by
+    have := htr.1; simp only [WFObj, WF] at this; exact this.1
+  have hP : prevOf (streamTrailer [] d) = .ok none := by
+    have : kPrev = PREV := rfl
+    simp only [prevOf, this, streamTrailer_get_other [] d hnd PREV (by decide) (by decide) (by decide) (by decide)
+      (by decide) (by decide), hprev]
+  have := sectionAt_streamP [] d out d' [] hk h hlen hmax hg htr none hP
+  simpa only [List.append_nil, ← xrefObj_eq] using this
+
 /-- the writer's map (object loop) lists exactly the write-order entries -/
-theorem xmap_entries_iff (d : SDoc) (hwf : DocWF d) (hbl : (bodyOf [] d).length < 4294967296) (n off g : Nat) :
-    (n, off, g) ∈ entriesOf d.objects (hdrOf [] d).length ↔
-      (1 ≤ n ∧ n < d.maxId + 1) ∧ (xmapOf [] d).get n = some (off, g) := by
-  have hbody : bodyOf [] d = hdrOf [] d ++ bytesOf d.objects := writeObjects_kept _ _ _ hwf.kept
-  have hblen : (bodyOf [] d).length = (hdrOf [] d).length + (bytesOf d.objects).length := by rw [hbody]; simp
+theorem xmap_entries_iff (pre : Bytes) (d : SDoc) (hwf : DocWF d) (hbl : (bodyOf pre d).length < 4294967296) (n off g : Nat) :
+    (n, off, g) ∈ entriesOf d.objects (hdrOf pre d).length ↔
+      (1 ≤ n ∧ n < d.maxId + 1) ∧ (xmapOf pre d).get n = some (off, g) := by
+  have hbody : bodyOf pre d = hdrOf pre d ++ bytesOf d.objects := writeObjects_kept _ _ _ hwf.kept
+  have hblen : (bodyOf pre d).length = (hdrOf pre d).length + (bytesOf d.objects).length := by rw [hbody]; simp
   constructor
   · intro he
-    have hg := entriesOf_get d.objects (hdrOf [] d) [] hwf.nodup hwf.kept _ he
+    have hg := entriesOf_get d.objects (hdrOf pre d) [] hwf.nodup hwf.kept _ he
     obtain ⟨⟨p, hp, hp1, hp2⟩, hlt⟩ := mem_of_entriesOf d.objects _ _ he
     simp only at hp1 hp2 hlt hg
     rw [Nat.mod_eq_of_lt (by omega)] at hg
@@ -296,13 +312,13 @@ theorem xmap_entries_iff (d : SDoc) (hwf : DocWF d) (hbl : (bodyOf [] d).length 
       | true => simpa using hm
       | false =>
         have hm' : n ∉ d.objects.map (·.1.1) := by simpa using hm
-        have := writeObjects_get_other d.objects (hdrOf [] d) [] n hm'
+        have := writeObjects_get_other d.objects (hdrOf pre d) [] n hm'
         unfold xmapOf at hx
         rw [this] at hx
         simp [XrefMap.get] at hx
     obtain ⟨p, hp, hpn⟩ := List.mem_map.mp hnum
-    obtain ⟨e, he, h1, h2⟩ := entriesOf_of_mem d.objects (hdrOf [] d).length p hp
-    have hg := entriesOf_get d.objects (hdrOf [] d) [] hwf.nodup hwf.kept e he
+    obtain ⟨e, he, h1, h2⟩ := entriesOf_of_mem d.objects (hdrOf pre d).length p hp
+    have hg := entriesOf_get d.objects (hdrOf pre d) [] hwf.nodup hwf.kept e he
     obtain ⟨_, hlt⟩ := mem_of_entriesOf d.objects _ e he
     rw [Nat.mod_eq_of_lt (by omega)] at hg
     have hen : e.1 = n := by rw [h1, hpn]
@@ -374,7 +390,7 @@ theorem strict_of_save_stream (d : SDoc) (out : Bytes) (d' : SDoc)
       (fun e => some e.1 != some (d.maxId + 1)) ↔ e ∈ entriesOf d.objects (hdrOf [] d).length := by
     intro e
     obtain ⟨n, off, g⟩ := e
-    rw [List.mem_filter, mem_streamEntriesOf, xmap_entries_iff d hwf hbl]
+    rw [List.mem_filter, mem_streamEntriesOf, xmap_entries_iff [] d hwf hbl]
     simp only [bne_iff_ne, ne_eq, Option.some.injEq]
     constructor
     · rintro ⟨⟨hr, hx⟩, hn⟩
